@@ -13,7 +13,8 @@ from .stmts import FunctionEngine, loop_sig
 from .db import ContractDB
 
 DROPPED_DECORATORS = ('staticmethod', 'classmethod', 'property', 'cached_property', 'cached_function',
-                      'functools.lru_cache', 'numba.njit', 'njit', 'numba.jit')
+                      'functools.lru_cache', 'numba.njit', 'njit', 'numba.jit',
+                      'catch_memory_overflow')   # retries the body once in memory-save mode after a MemoryError
 
 
 class FuncRun(FunctionEngine):
